@@ -22,8 +22,9 @@ ObsOf(r) ==
    chain |-> IF r.op \in {"event", "walk"} THEN r.chain ELSE << >>]
 \* observations must stay inside the model's value space for the effect functions (a wild value is a violation)
 Sane(r) == /\ SetOf(r.closes) \subseteq 1..n
-           /\ (r.op = "new" => r.par \in 0..n)
-           /\ (r.op = "capture" => r.got \in 0..n)
+           /\ (r.op = "new" => "par" \in DOMAIN r /\ "clean" \in DOMAIN r /\ r.par \in 0..n)
+           /\ (r.op = "capture" => "got" \in DOMAIN r /\ r.got \in 0..n)        \* (an operation that panicked lacks its result)
+           /\ (r.op \in {"event", "walk"} => "chain" \in DOMAIN r)
 
 Reset ==
   /\ cur' = [t \in Threads |-> 0]
